@@ -121,8 +121,12 @@ func vH_C06_step() {
 	ex := vChoose("ex", 0, 1) == 1
 	stopAt := vChoose("stop-at", 0, cfg.n) // deliver this many, then return false (n = never stop early... n+? see below)
 	var got []vSeen
+	evictIn := vChoose("evict-in-visitor", 0, vParam("evictin")) == 1
 	visEx := func(i *Item, depth uint64) bool {
 		got = append(got, vSeen{i.Key, i.Val, i.Priority, depth})
+		if evictIn && len(got) == 1 {
+			c.EvictSomeItems() // the visitor (or anyone) may evict while the visit is in flight
+		}
 		return len(got) <= stopAt
 	}
 	vis := func(i *Item) bool { return visEx(i, 0) }
@@ -257,7 +261,11 @@ func vH_C19_keyonly() {
 	}
 	f.resetLogs()
 	key := vKeyArg("arg", cfg.klen)
-	switch vChoose("keyonly-op", 0, 9) {
+	kop := vParam("onlyop")
+	if kop < 0 {
+		kop = vChoose("keyonly-op", 0, 9)
+	}
+	switch kop {
 	case 0:
 		vTrace("GetItem(false)")
 		_, err = c.GetItem(key, false)
